@@ -21,12 +21,14 @@ type C17Case struct {
 	Pos     int      `json:"pos"` // index of the long line among the payload lines
 	Words   []string `json:"words"`
 	FinalNL bool     `json:"final_nl"`
+	// Trace: run with -l trace (the log level must not change what is carried through)
+	Trace bool `json:"trace,omitempty"`
 }
 
 var c17Words = []string{"alpha", "bravo", "charlie", "delta", "echo", "foxtrot", "golf", "hotel", "india", "juliet", "kilo", "lima"}
 
 func genC17(t *rapid.T) C17Case {
-	lens := []int{1, 200, 4096, 65000, 65535, 65536, 65537, 70000, 131072, 65536, 65537, 70000, 131072, 1048576}
+	lens := []int{1, 200, 1023, 1024, 1025, 1500, 4096, 65000, 65535, 65536, 65537, 70000, 131072, 65536, 65537, 70000, 131072, 1048576}
 	if thorough() {
 		lens = append(lens, 262144, 1048576, 1048577, 2097152)
 	}
@@ -46,6 +48,7 @@ func genC17(t *rapid.T) C17Case {
 		// format rebuilds directive lines from their parts: a long value must survive that too
 		c.Long = rapid.SampledFrom([]string{"entry", "comment", "define", "prefix", "suffix", "include-pairs"}).Draw(t, "longfmt")
 	}
+	c.Trace = rapid.IntRange(0, 4).Draw(t, "trace") == 0
 	n := rapid.SampledFrom([]int{0, 0, 1, 2, 3, 4, 5, 6}).Draw(t, "words") // 0: the long line is the only line
 	perm := rapid.Permutation(c17Words).Draw(t, "perm")
 	c.Words = perm[:n]
@@ -89,7 +92,14 @@ func checkC17(c C17Case) Outcome {
 		return append(l, words[c.Pos:]...)
 	}
 	run := func(stdin string, args ...string) cli.Result {
-		return cli.Run(cli.Opt{Dir: sb.Root, Stdin: stdin, Timeout: 120 * time.Second}, append([]string{"-d", root}, args...)...)
+		global := []string{"-d", root}
+		if c.Trace {
+			global = []string{"-l", "trace", "-d", root}
+		}
+		return cli.Run(cli.Opt{Dir: sb.Root, Stdin: stdin, Timeout: 120 * time.Second}, append(global, args...)...)
+	}
+	if c.Trace {
+		out.Labels = append(out.Labels, "log-level-trace")
 	}
 	loud := func(r cli.Result, targets map[string]string) (bool, string) {
 		if r.Exit == 0 {
